@@ -16,6 +16,7 @@
   (`frame_length = None`, then `int + None`) after the frames before it have been yielded.
 -/
 import Acra.Lemmas.SamDec
+import Acra.Lemmas.SamDecConverse
 namespace Acra.Props.C18
 open Acra.Py Acra.Model.SamDec Acra.Model.Search Acra.Gen.SamDec Acra.Spec Acra.Spec.SamDec Acra.Lemmas.SamDec
 
@@ -54,6 +55,40 @@ theorem frames_exact_of_inferred (ghdr : Bytes) (L : Nat) (recs : List (Nat × N
     none (Or.inr ⟨rfl, hfirst⟩)
   simp only [List.map_map, Function.comp_def] at this
   exact this
+
+/-- the hypothesis of `frames_exact_of_inferred` is not only sufficient but NECESSARY: for a capture of well-formed
+    items the decommutator returns exactly the frames carried (and ends without an exception) if and only if the
+    frame length the code infers from the first SAM/DEC packet is `L`.  (Otherwise every frame it yields has the
+    inferred length, or it raises.) -/
+theorem frames_exact_iff (ghdr : Bytes) (L : Nat) (recs : List (Nat × Nat × Item))
+    (hg : ghdr.length = 24)
+    (hwf : ∀ r ∈ recs, r.2.2.WF L) :
+    decom (capture ghdr (recs.map fun r => record r.1 r.2.1 r.2.2.bytes)) =
+      ((recs.map (·.2.2)).flatMap Item.frames, none) ↔ FirstLen L (recs.map (·.2.2)) := by
+  refine ⟨?_, frames_exact_of_inferred ghdr L recs hg hwf⟩
+  intro h
+  apply Classical.byContradiction
+  intro hbad
+  have hrd := pcapRecords_capture ghdr hg (recs.map fun r => (r.1, r.2.1, r.2.2.bytes))
+    (by intro r hr
+        simp only [List.mem_map] at hr
+        obtain ⟨r', hr', rfl⟩ := hr
+        exact (hwf r' hr').length_lt)
+  simp only [List.map_map, Function.comp_def] at hrd
+  have hgh : List.take SamDec_PCAP_GLOBAL_HEADER_SIZE
+      (capture ghdr (recs.map fun r => record r.1 r.2.1 r.2.2.bytes)) = ghdr := by
+    rw [capture, List.take_left' (by rw [hg]; rfl)]
+  have hhdr : ∃ v, structUnpack SamDec_PCAP_GLOBAL_HEADER_FORMAT ghdr = .ok v := by
+    simp [structUnpack, hg, SamDec_PCAP_GLOBAL_HEADER_FORMAT, Fmt.size, codesSize, Code.size]
+  obtain ⟨v, hv⟩ := hhdr
+  unfold decom getData at h
+  rw [hgh, hv] at h
+  simp only [hrd] at h
+  unfold frames at h
+  rw [sync_packed] at h
+  have := framesLoop_items_conv L (recs.map (·.2.2)) (items_WF_of_recs hwf) hbad
+  simp only [List.map_map, Function.comp_def] at this
+  exact this h
 
 /-- `frames_exact`: for a capture built from records (time stamp, item), every item well formed for the
     common frame length `L`, the decommutator returns the concatenation of all frames in order and ends
@@ -193,6 +228,30 @@ example : ¬ FirstSync 10 (exPlanted.map (·.2.2)) := by
 
 example : decom (capture (List.replicate 24 0) (exPlanted.map fun r => record r.1 r.2.1 r.2.2.bytes)) =
     ([exG 1 [2, 3, 4, 5, 6], exG 9 (syncWord ++ [9]), exG 7 (syncWord ++ [8])], none) := by decide +kernel
+
+/-! `FirstLen` is strictly weaker than `FirstSync'`: with 8-byte frames and the sync word at offset 2 of the
+    SAM/DEC header the occurrences are `[2, 10, 18]`, the code infers 10 − 2 = 8, and the frames come back. -/
+def exHdrSync : List (Nat × Nat × Item) :=
+  [(3, 4, .samdec exL234 0x11000000 7 8 9 0 ([0, 0] ++ syncWord ++ [0, 0, 0, 0])
+      [syncWord ++ [1, 2, 3, 4], syncWord ++ [5, 6, 7, 8]])]
+example : FirstLen 8 (exHdrSync.map (·.2.2)) := by
+  simp only [exHdrSync, List.map_cons, FirstLen]
+  have : occ ([0, 0] ++ syncWord ++ [0, 0, 0, 0] ++ [syncWord ++ [1, 2, 3, 4], syncWord ++ [5, 6, 7, 8]].flatten) syncWord =
+      [2, 10, 18] := by decide
+  unfold inferLength
+  rw [Acra.Lemmas.Search.bmh_eq_occ _ syncWord (by decide), this]
+  rfl
+example : ¬ FirstSync' 8 (exHdrSync.map (·.2.2)) := by
+  simp only [exHdrSync, List.map_cons, FirstSync']
+  rintro (⟨rest, h⟩ | ⟨h, _⟩)
+  · have : (occ ([0, 0] ++ syncWord ++ [0, 0, 0, 0] ++ [syncWord ++ [1, 2, 3, 4], syncWord ++ [5, 6, 7, 8]].flatten) syncWord).head? = some 2 := by
+      decide
+    rw [h] at this
+    cases this
+  · revert h; decide
+
+example : decom (capture (List.replicate 24 0) (exHdrSync.map fun r => record r.1 r.2.1 r.2.2.bytes)) =
+    ([syncWord ++ [1, 2, 3, 4], syncWord ++ [5, 6, 7, 8]], none) := by decide +kernel
 
 /-! `FirstSync'` is what the code needs of the frame STARTS; the sync pattern inside the first frame's data
     (here at offset 15 of the payload) makes the code infer the frame length 5 instead of 10: three 5-byte
